@@ -27,3 +27,13 @@ package registry
 //@   ensures old(Deliver(ctx)) && (err == nil || !unavail(err)) ==> (forall k int :: k != registryState.EntityKey(old(api.Signer(ctx))) ==> kvHas(k) == old(kvHas(k)))
 //@   ensures err == nil && !old(Deliver(ctx)) ==> noWrites()
 //@   ensures err != nil && !unavail(err) ==> noWrites()
+
+//@ import staking "github.com/oasisprotocol/oasis-core/go/staking/api"
+//@ import registry "github.com/oasisprotocol/oasis-core/go/registry/api"
+//@ ghost func RtClaim(rt *registry.Runtime) staking.StakeClaim { return ufr[staking.StakeClaim]("claimForRuntime", rt.ID) }
+
+//@ func Application.registerRuntime
+//@   props C17
+//@   requires app != nil && ctx != nil && state != nil && rt != nil
+//@   precall api\.MessageDispatcher\)\.Publish$ :: api.GPublishes != old(api.GPublishes) || (defined(stakeParams) && stakeParams != nil && (registry.RtHasAddr(rt) && !stakeParams.DebugBypassStake ==> stakingState.GClaim[registry.RtAddr(rt)][RtClaim(rt)] && (existingRt != nil && registry.RtHasAddr(existingRt) && registry.RtAddr(existingRt) != registry.RtAddr(rt) ==> !stakingState.GClaim[registry.RtAddr(existingRt)][RtClaim(rt)])))
+//@   note when the registration is announced to the other applications (first message published), the runtime's stake claim is recorded on the account that now owns the runtime and, if the owning account changed, no longer on the previous one: the recorded claims are exactly those implied by the registered runtimes
